@@ -1028,7 +1028,7 @@ def process(ctx, exe, mexe, hists, impl, tot):
 
 def replay(ctx, path):
     import replaylib
-    r = replaylib.load("C11", path)
+    r = replaylib.load(ctx, path)
     ops = r.get("ops")
     if not ops:
         return replaylib.obligations("C11", run, r, path)
